@@ -82,7 +82,7 @@ func C13(p *load.Prog, r *oblig.Run) {
 	r.Assumptions = e4Assumptions()
 	r.Rule("R13.a", "read-only operations perform no structural write on the document or nodes they are given", 150)
 	r.Rule("R13.b", "every writer of a membership field can reach an invalidation of every cache derived from that field", 8)
-	g := cg.New(p, r.Tier == "thorough")
+	g := cg.New(p, false)
 	explicit, accessors := readOnlyRoots(p, g)
 	r.Extra["read_only_roots_explicit"] = len(explicit)
 	r.Extra["read_only_roots_accessors"] = len(accessors)
